@@ -266,6 +266,15 @@ fn main() {
             std::io::stdin().read_to_string(&mut inp).unwrap();
             println!("{}", serde_json::to_string(&ast::parse_code(&inp)).unwrap());
         }
+        "rustfns" => {
+            let mut all = Vec::new();
+            for f in &args[2..] {
+                if let Ok(src) = std::fs::read_to_string(f) {
+                    all.extend(ast::rust_fns(f, &src));
+                }
+            }
+            println!("{}", serde_json::to_string(&all).unwrap());
+        }
         _ => {
             eprintln!("unknown subcommand");
             std::process::exit(2);
